@@ -153,7 +153,52 @@ func (p *parsedFile) getFuncAST(f string, l int) (d *ast.FuncDecl, err error) {
 		}
 		return true
 	})
+	if d != nil && !matchFuncDecl(d, f) {
+		// The declaration preceding the line is not the function of the frame: a
+		// function literal, a function written on a single line, or sources that
+		// do not match the binary.
+		d = nil
+	}
 	return
+}
+
+// matchFuncDecl returns true if d declares the function named f in a stack
+// trace, e.g. "foo", "T.foo", "(*T).foo" or "foo[...]".
+//
+// Function literals, e.g. "foo.func1", and wrappers, e.g. "T.foo-fm", are not
+// declared in the sources.
+func matchFuncDecl(d *ast.FuncDecl, f string) bool {
+	// Type parameters are printed as "[...]".
+	f = strings.ReplaceAll(f, "[...]", "")
+	recv := ""
+	if i := strings.LastIndexByte(f, '.'); i != -1 {
+		recv, f = f[:i], f[i+1:]
+	}
+	if f != d.Name.Name {
+		return false
+	}
+	if d.Recv == nil {
+		return recv == ""
+	}
+	if len(d.Recv.List) != 1 {
+		return false
+	}
+	t := d.Recv.List[0].Type
+	if s, ok := t.(*ast.StarExpr); ok {
+		if !strings.HasPrefix(recv, "(*") || !strings.HasSuffix(recv, ")") {
+			return false
+		}
+		recv = recv[2 : len(recv)-1]
+		t = s.X
+	}
+	switch x := t.(type) {
+	case *ast.IndexExpr:
+		t = x.X
+	case *ast.IndexListExpr:
+		t = x.X
+	}
+	id, ok := t.(*ast.Ident)
+	return ok && id.Name == recv
 }
 
 func name(n ast.Node) string {
